@@ -53,14 +53,16 @@ def _judge(ctx, w):
         pre = L.real_spec(cur)
         if not L.dynamic_ok(st, seq[:i], pre):
             raise Skip()
+        kids_before = L.child_counts(cur)
         try:
             res = L.apply_step(ctx, st, cur)
         except Exception as e:
             if not last:
                 raise Skip()
             return ("%s returns the root of a well-formed tree" % st,
-                    {"raised": "%s: %s" % (type(e).__name__, e), "wf_errors": L.describe_wreck(cur)})
-        bad = L.check_step(st, pre, res)
+                    {"raised": "%s: %s" % (type(e).__name__, e), "wf_errors": L.describe_wreck(cur),
+                     "emptied_had_children": L.emptied_info(kids_before, L.top_of(cur))})
+        bad = L.check_step(st, pre, res, kids_before)
         if bad:
             if not last:
                 raise Skip()
@@ -105,12 +107,13 @@ def all_sequences(max_len, with_extension):
 def one_token_specs():
     out = []
     for w, p in (("Hund", "NN"), (".", "$."), ("\"", "$(")):
-        s = tg.node_spec("VROOT", [tg.leaf_spec(1, w, p)])
-        s["sid"] = 1
-        out.append(s)
-        s = tg.node_spec("VROOT", [tg.node_spec("S", [tg.node_spec("NP", [tg.leaf_spec(1, w, p)])])])
-        s["sid"] = 1
-        out.append(s)
+        for chain in ([], ["S"], ["S", "NP"], ["S", "NP", "NP"]):
+            inner = tg.leaf_spec(1, w, p)
+            for lab in reversed(chain):
+                inner = tg.node_spec(lab, [inner])
+            s = tg.node_spec("VROOT", [inner])
+            s["sid"] = 1
+            out.append(s)
     return out
 
 
@@ -142,7 +145,7 @@ def generate(ctx):
     b = BOUNDS(ctx)
     rng = ctx.rng
     seqs2 = all_sequences(min(b["L"], 2), b["pipeline_extension"])
-    small = L.handmade() + one_token_specs()
+    small = sorted(one_token_specs() + L.handmade(), key=lambda s: len(L.tokens(s)))
     for spec in small:
         for seq in seqs2:
             yield _clause(seq), {"spec": spec, "seq": seq}, _nt(spec, seq)
@@ -166,15 +169,21 @@ def generate(ctx):
 
 
 def classify(clause, witness, expected, observed):
+    """known defects (DESIGN F5, F7); anything else is reported as a new class (None)"""
     if not isinstance(observed, dict):
         return None
     errs = observed.get("wf_errors") or []
-    childless = any("childless constituent" in e for e in errs)
-    if clause in ("punctuation_root", "punctuation_symetrify"):
-        if "raised" in observed and childless:
+    only_childless = bool(errs) and all("childless constituent" in e for e in errs)
+    had = observed.get("emptied_had_children") or []
+    if clause == "punctuation_root" and only_childless and "raised" not in observed \
+            and had and all(isinstance(k, int) and k >= 2 for k in had):
+        # every child of a constituent with >= 2 children was a punctuation token and all were moved
+        return "punct-moved-out-leaves-childless-parent"
+    if clause == "punctuation_symetrify" and only_childless and had and all(isinstance(k, int) and k >= 1 for k in had):
+        # a paired-punctuation candidate that was the only (remaining) child of its parent was moved
+        if "raised" in observed:
             return "raises-after-emptying-a-constituent"
-        if childless and all("childless constituent" in e for e in errs):
-            return "punct-moved-out-leaves-childless-parent"
+        return "punct-moved-out-leaves-childless-parent"
     if clause == "uncollapse_unary_chains" and "returned_inner_node" in observed:
         if observed.get("tree_below_the_real_root_ok"):
             return "returns-inner-node-of-root-chain"
